@@ -179,14 +179,14 @@ func fuzzSpace(w *W, f func(c fuzzCase)) {
 	// … and types: nesting of every parametrised constructor around every kind of leaf, in the three type positions, at
 	// depths around ClickHouse's limit (≤ 1000 levels is inside C03's bound; beyond it only C01/C02 apply)
 	for _, tn := range []nest{{"Array(", "", ")"}, {"Nullable(", "", ")"}, {"Tuple(a ", "", ")"}, {"Map(String, ", "", ")"}, {"Tuple(Int8, ", "", ")"}, {"LowCardinality(", "", ")"}} {
-		for _, leaf := range []string{"JSON(a UInt8)", "JSON(max_dynamic_paths = 1)", "Object('json')", "Enum8('a' = 1)", "DateTime64(3, 'UTC')", "Nested(x Int8)", "Int8", "AggregateFunction(sum, Int8)", "Dynamic(max_types = 1)", "Variant(Int8, String)"} {
+		for _, leaf := range []string{"JSON(a UInt8)", "JSON(UInt8)", "Object(UInt8)", "JSON(max_dynamic_paths = 1)", "Object('json')", "Enum8('a' = 1)", "DateTime64(3, 'UTC')", "Nested(x Int8)", "Int8", "AggregateFunction(sum, Int8)", "Dynamic(max_types = 1)", "Variant(Int8, String)"} {
 			for _, depth := range []int{100, 998, 999, 1000, 1001, 1500} {
-				if !w.Thorough() && depth != 999 && depth != 1000 && (len(leaf)+depth)%4 != 0 {
+				if !w.Thorough() && (depth < 998 || depth > 1001) && (len(leaf)+depth)%4 != 0 {
 					continue
 				}
 				ty := strings.Repeat(tn.open, depth) + leaf + strings.Repeat(tn.close, depth)
 				for pi, pos := range [][2]string{{"CREATE TABLE t (c ", ") ENGINE = Memory"}, {"SELECT CAST(x AS ", ")"}, {"SELECT x::", ""}} {
-					if !w.Thorough() && (pi+depth+len(tn.open))%3 != 0 {
+					if !w.Thorough() && (depth < 998 || depth > 1001) && (pi+depth+len(tn.open))%3 != 0 {
 						continue
 					}
 					run(pos[0]+ty+pos[1], fmt.Sprintf("deep-type:%q*%d", tn.open, depth), depth > 996)
